@@ -177,14 +177,55 @@ Definition ts_re : regex :=
   RCat (RCls cls_19) (RCat (RStar (RCls cls_digit))
        (RCat (RLit [c_sp]) (RCat (RCls cls_pm) (RRep 4 (RCls cls_digit))))).
 
+(* The translator emits concatenations in normal form (capture groups dropped,
+   nested concatenations inlined, right-nested): grouping in the Go literal does
+   not reach the model.  [sign_body_flat] is that normal form, [sign_body] the
+   grouped reading the proofs below take apart; they have the same language. *)
+Definition sign_body : regex :=
+  RCat (RStar (RCls cls_not_lt))
+    (RCat (RLit [c_sp; x3c]) (RCat email_re (RCat (RLit [x3e; c_sp]) ts_re))).
+Definition sign_body_flat : regex :=
+  RCat (RStar (RCls cls_not_lt))
+    (RCat (RLit [c_sp; x3c])
+       (RCat (RPlus (RCls cls_local))
+          (RCat (RLit [x40]) (RCat (RPlus label_re) (RCat (RRepMin 2 (RCls cls_alpha))
+             (RCat (RLit [x3e; c_sp]) ts_re)))))).
+
 (* If the Go literal changes, this is the lemma that breaks. *)
-Lemma sign_regex_shape :
-  re_signRegexp =
-  mkPat true
-    (RCat (RStar (RCls cls_not_lt))
-       (RCat (RLit [c_sp; x3c]) (RCat email_re (RCat (RLit [x3e; c_sp]) ts_re))))
-    true.
+Lemma sign_regex_shape : re_signRegexp = mkPat true sign_body_flat true.
 Proof. reflexivity. Qed.
+
+Definition req (r1 r2 : regex) : Prop := forall s, lang r1 s <-> lang r2 s.
+Lemma req_refl r : req r r. Proof. intro s. tauto. Qed.
+Lemma req_sym r1 r2 : req r1 r2 -> req r2 r1. Proof. intros H s. symmetry. apply H. Qed.
+Lemma req_trans r1 r2 r3 : req r1 r2 -> req r2 r3 -> req r1 r3.
+Proof. intros H1 H2 s. rewrite (H1 s). apply H2. Qed.
+Lemma req_cat_r a b b' : req b b' -> req (RCat a b) (RCat a b').
+Proof.
+  intros H s. split; intro Hl; apply lang_RCat in Hl; destruct Hl as [u [v [E [Hu Hv]]]];
+    apply lang_RCat; exists u, v; (split; [exact E|]); (split; [exact Hu|]); apply H; exact Hv.
+Qed.
+Lemma req_assoc a b c : req (RCat (RCat a b) c) (RCat a (RCat b c)).
+Proof.
+  intro s. split; intro Hl.
+  - apply lang_RCat in Hl. destruct Hl as [uv [w [E [Huv Hw]]]].
+    apply lang_RCat in Huv. destruct Huv as [u [v [E2 [Hu Hv]]]]. subst uv s.
+    apply lang_RCat. exists u, (v ++ w). split; [apply app_assoc_reverse|]. split; [exact Hu|].
+    apply lang_RCat. exists v, w. split; [reflexivity|]. split; assumption.
+  - apply lang_RCat in Hl. destruct Hl as [u [vw [E [Hu Hvw]]]].
+    apply lang_RCat in Hvw. destruct Hvw as [v [w [E2 [Hv Hw]]]]. subst vw s.
+    apply lang_RCat. exists (u ++ v), w. split; [apply app_assoc|]. split; [|exact Hw].
+    apply lang_RCat. exists u, v. split; [reflexivity|]. split; assumption.
+Qed.
+
+Lemma sign_body_flat_eq : req sign_body_flat sign_body.
+Proof.
+  unfold sign_body_flat, sign_body, email_re.
+  apply req_cat_r. apply req_cat_r. apply req_sym.
+  eapply req_trans; [apply req_assoc|]. apply req_cat_r.
+  eapply req_trans; [apply req_assoc|]. apply req_cat_r.
+  apply req_assoc.
+Qed.
 
 Definition valid_name (n : bytes) : Prop := ~ In x3c n.
 Definition valid_email (e : bytes) : Prop := lang email_re e.
@@ -302,7 +343,7 @@ Theorem sign_regex_spec : forall s,
     valid_name n /\ valid_email e /\ ts_form t.
 Proof.
   intro s. rewrite re_search_spec. rewrite sign_regex_shape. cbn [p_body p_bol p_eol]. split.
-  - intros [pre [mid [post [E [Hm [Hp Hq]]]]]].
+  - intros [pre [mid [post [E [Hm [Hp Hq]]]]]]. apply sign_body_flat_eq in Hm. unfold sign_body in Hm.
     specialize (Hp eq_refl). specialize (Hq eq_refl). subst pre post.
     cbn [app] in E. rewrite app_nil_r in E. subst mid.
     apply lang_RCat in Hm. destruct Hm as [n [r1 [E1 [Hn H]]]].
@@ -316,7 +357,7 @@ Proof.
   - intros [n [e [t [E [Hn [He Ht]]]]]].
     exists [], s, []. split; [cbn [app]; symmetry; apply app_nil_r|].
     split; [|split; intros _; reflexivity].
-    subst s.
+    subst s. apply sign_body_flat_eq. unfold sign_body.
     apply lang_RCat. exists n, ([c_sp; x3c] ++ e ++ [x3e; c_sp] ++ t). split; [reflexivity|]. split.
     { apply lang_star_cls. apply Forall_not_lt. exact Hn. }
     apply lang_RCat. exists [c_sp; x3c], (e ++ [x3e; c_sp] ++ t). split; [reflexivity|]. split.
